@@ -472,7 +472,7 @@ impl Stdfs {
             let src = entry?;
             let uid = opts.uid.map(nix::unistd::Uid::from_raw);
             let gid = opts.gid.map(nix::unistd::Gid::from_raw);
-            nix::unistd::chown(src.path(), uid, gid)?;
+            nix::unistd::fchownat(None, src.path(), uid, gid, nix::unistd::FchownatFlags::NoFollowSymlink)?;
         }
         Ok(())
     }
